@@ -436,7 +436,8 @@ func (r result) node() map[string]interface{} {
 	}
 	st := map[string]interface{}{
 		"big": bigMode, "mode": r.mode, "tp": r.tp, "pd": N(pd), "hasLast": r.hasLast, "last": N(scaled(r.last)),
-		"matched": r.matched, "hasMp": !r.mp.IsNil(), "mp": N(scaled(r.mp)), "diff": N(r.diff), "panic": r.panicked, "panicS": r.panicS,
+		"matched": r.matched, "hasMp": !r.mp.IsNil(), "mp": N(scaled(r.mp)), "diff": N(new(big.Int).Abs(r.diff)), "diffNeg": r.diff.Sign() < 0,
+		"panic": r.panicked, "panicS": r.panicS,
 		"orders": orders, "allFills": allFills, "pool": r.poolKind,
 		"excessSide": side, "excessRoundingSized": roundingSized,
 	}
